@@ -7,6 +7,7 @@ Decided is one necessary structural condition per anchored mechanism, for every 
              the piece (i, j) is assembled from the entry of the same key; the support covers min..max;
   E21 N1-N3  invariant-factor normalisation ends only when d[i] | d[i+1] for the whole non-zero prefix (torsion is
              reported as invariant factors, so "number of summands of order divisible by p" is well defined);
+  E21 N4     nested diagonal entries are exchanged by a permutation, never mixed (generators stay q-homogeneous);
   E10 R6     the (-c) -> ring dispatch runs the documented ring type for each of Z, Q, F2, F3.
 """
 import e23_bigrade, e21_snfscan, e10_cli
@@ -29,7 +30,7 @@ def run(ctx, rep):
     rep.rule('E21', e21_snfscan.__doc__.strip().split('\n')[0])
     rep.rule('E10.R6', 'dispatch table of kh / ckh: App::<T>::run is reached with the documented ring type for every combination')
     e23_bigrade.run(facts, rep)
-    e21_snfscan.run(facts, rep)
+    e21_snfscan.run(facts, rep, mixing_rule=True)
     for cmd in ('kh', 'ckh'):
         e10_cli.check_dispatch_table(facts, rep, cmd, 'i64')
     rep.callsites += sum(len(facts.bodies[k].calls()) for k in rep.functions if k in facts.bodies)
